@@ -35,6 +35,8 @@ Checks(r) ==
              THEN {} ELSE {"Extra"})
        \cup (IF exp.ret = "parse" /\ ~r.obs.msgline THEN {"ErrorDoesNotNameLine"} ELSE {})
        \cup (IF exp.ret = "write" /\ ~r.obs.wraps THEN {"ErrorIdentity"} ELSE {})
+       \* with a broken output nothing can appear after the failing write
+       \cup (IF r.fault.kind = "writefailp" /\ Len(got) > Len(want) THEN {"WrittenAfterBrokenOutput"} ELSE {})
 
 TInit == l = 1 /\ nbad = 0
 Step ==
